@@ -49,6 +49,7 @@ type call struct {
 	withdrawn bool
 	activeMax int  // max number of other reservations held while this call was inside ReserveNewQuery
 	reservingNow bool
+	streamIdx int
 }
 
 // answerRec is one answer produced by the server actor.
